@@ -36,6 +36,35 @@ func fontFromCase(f []string) (*type1.Font, bool, type1.FileFormat) {
 			font.Glyphs[fmt.Sprintf("g%04d", i)] = &type1.Glyph{Cmds: wellFormedPath(r, true), HStem: randStems(r), VStem: randStems(r), WidthX: float64(r.rangeInt(0, 2000))}
 		}
 	}
+	if f[2] == "hvfrac" {
+		// the two short curve forms (first tangent horizontal, last vertical, and the reverse) with fractional
+		// coordinates the encoder cannot represent exactly: the last operand must compensate the error of the middle one
+		integer = false
+		r := newRng(seed)
+		font = randFont(r, true)
+		for i, fr := range []float64{0.0046, 0.0023, 0.00465, 0.0031, 1.0 / 3, 2.0 / 7, 0.0092, 0.5 - 0.0046} {
+			font.Glyphs[fmt.Sprintf("hv%d", i)] = &type1.Glyph{WidthX: 500, Cmds: []type1.GlyphOp{
+				{Op: type1.OpMoveTo, Args: []float64{0, 0}}, {Op: type1.OpCurveTo, Args: []float64{50 + fr, 0, 100, 10 + fr, 100, 20 + 2*fr}},
+				{Op: type1.OpLineTo, Args: []float64{0, 20 + 2*fr}}, {Op: type1.OpClosePath}}}
+			font.Glyphs[fmt.Sprintf("vh%d", i)] = &type1.Glyph{WidthX: 500, Cmds: []type1.GlyphOp{
+				{Op: type1.OpMoveTo, Args: []float64{0, 0}}, {Op: type1.OpCurveTo, Args: []float64{0, 50 + fr, 10 + fr, 100, 20 + 2*fr, 100}},
+				{Op: type1.OpLineTo, Args: []float64{20 + 2*fr, 0}}, {Op: type1.OpClosePath}}}
+		}
+	}
+	if strings.HasPrefix(f[2], "longstr") {
+		// long text fields with a byte that needs escaping at a chosen offset (a writer that breaks or escapes long
+		// literals in blocks meets its block boundary there)
+		integer = true
+		k, _ := strconv.Atoi(f[2][len("longstr"):])
+		r := newRng(seed)
+		font = randFont(r, true)
+		mk := func(special string) string {
+			return strings.Repeat("a", k) + special + strings.Repeat("b", 600-k)
+		}
+		font.FontInfo.Notice = mk(pick(r, []string{"\\", "\\n", "\\1", "\r", "\r\n"}))
+		font.FontInfo.Copyright = mk(pick(r, []string{"(", ")", ")(", "\x00", "\xff"}))
+		font.FontInfo.FullName = mk("\\")
+	}
 	return font, integer, format
 }
 
@@ -73,6 +102,10 @@ func suiteT1rt(o *suiteOut, r *rng, tier string, n int) {
 	}
 	if n > 0 {
 		nr = n
+	}
+	for _, ff := range allFormats {
+		t1rtCase(o, fmt.Sprintf("t1rt 4242 hvfrac %s", formatName(ff)))
+		o.count("short curve forms with awkward fractions")
 	}
 	for i := 0; i < nr; i++ {
 		seed := r.next() % 1000000007
@@ -370,6 +403,12 @@ func suiteT1write(o *suiteOut, r *rng, tier string, n int) {
 			o.count("format " + ff)
 		}
 	}
+	for k := 236; k <= 260; k++ {
+		for _, kk := range []int{k, k + 250} {
+			t1writeCase(o, fmt.Sprintf("t1write %d longstr%d %s", 7000+kk, kk, []string{"pfa", "noeexec", "pdf"}[kk%3]))
+			o.count("long text fields with a special byte at a chosen offset")
+		}
+	}
 	o.notes = append(o.notes, "random fonts x {PFA, PFB, binary, no-eexec, PDF embedding}; direct oracle: the harness's own Type 1 decoder (written from the Adobe book) applied to the bytes the writer produced, the binary-start predicate, the PDF lengths, strict PFB framing")
 }
 
@@ -388,6 +427,11 @@ func unusualFont(r *rng) *type1.Font {
 		}
 		if r.chance(1, 6) {
 			g.WidthY = float64(r.rangeInt(-20, 20))
+		}
+		if r.chance(1, 5) {
+			// negative and fractional advance widths (both axes): rounded to the nearest integer, halves away from zero
+			g.WidthX = -float64(r.rangeInt(0, 300)) - pick(r, []float64{0, 0.2, 0.5, 0.7, 0.75})
+			g.WidthY = pick(r, []float64{-8.0 / 3, -1.7, -0.5, 1.5, 2.5, -2.5, 0.4999})
 		}
 	}
 	if r.chance(1, 3) {
